@@ -8,7 +8,7 @@
         [load (save p) = p]  (np.save | MaskedArray.dump / np.load: an explicit premise, not an axiom);
       - every slot configuration [c]: kind (KOutput with the Output eviction rule — minimum of the
         consumers' last requests —, KNext/KPrev/KLinear/KStep n d with the time-caching rule,
-        KAvg/KSum with the [_prev_time] rule), every limit [option Z] (None, Some 0, negative,
+        KAvg/KSum with the [_prev_time] rule, KStatic = static Output: one entry, never evicted), every limit [option Z] (None, Some 0, negative,
         anything crossed mid-run), location and slot id;
       - every op sequence: pushes of any payload/size/time, pulls by any key at any time,
         finalize, and [Env g] = arbitrary interference with all files that are not named
@@ -103,6 +103,23 @@ Theorem C10_fs_restored :
       s_fs (final save load c (init keys fs0) (ops ++ [Finalize])) = fs0.
 Proof. intros P F. exact (@fs_restored P F). Qed.
 
+(** Static outputs ([KStatic]; all theorems above cover them too — in particular after finalize the
+    file of a spilled static publication is gone): a static slot that already holds its publication
+    refuses every further one, leaving the whole state untouched, wherever that entry lives (RAM or
+    file); the first publication is accepted and spilled iff it does not fit; hence at most one
+    entry ever. *)
+Theorem C10_static_refusal_independent :
+  forall (P F : Type) (save : P -> F) (c : config) (s : state P F) (t : Z) (p : P) (size : Z),
+    c_kind c = KStatic -> s_buf s <> [] -> push save c s t p size = s.
+Proof. intros P F. exact (@static_refusal P F). Qed.
+
+Theorem C10_static_single_entry :
+  forall (P F : Type) (save : P -> F) (load : F -> P)
+         (c : config) (keys : list nat) (fs0 : fsys F) (ops : list (op P F)),
+    c_kind c = KStatic ->
+    (length (s_buf (final save load c (init keys fs0) ops)) <= 1)%nat.
+Proof. intros P F. exact (@static_single P F). Qed.
+
 (* ------------------------------------------------------------------ *)
 (** Non-vacuity: concrete runs meeting all hypotheses, with spilled entries that are read back,
     evicted and finalized, next to foreign files. *)
@@ -156,6 +173,23 @@ Example C10_clean_nonvacuous :
   /\ s_fs (final idn idn out_cfg (init [1; 2]%nat ex_fs0) (out_ops ++ [Finalize])) = ex_fs0.
 Proof. vm_compute. repeat split; reflexivity. Qed.
 
+(** a static output (limit 0): the publication is spilled, read by two targets at arbitrary
+    times, a second and third publication are refused, finalize removes the file *)
+Definition st_cfg : config := mkc KStatic (Some 0) 3%nat 7%nat.
+Definition st_ops : list (op nat nat) :=
+  [Pull 0 5; Push 0 10%nat 48; Pull 0 0; Pull 1 77; Push 0 11%nat 48; Pull 1 (-3); Push 9 12%nat 8].
+
+Example C10_static_nonvacuous :
+  c_kind st_cfg = KStatic
+  /\ delivered idn idn st_cfg (init [0; 1]%nat ex_fs0) st_ops
+     = [Some None; None; Some (Some [Some 10%nat]); Some (Some [Some 10%nat]); None;
+        Some (Some [Some 10%nat]); None]
+  /\ s_buf (final idn idn st_cfg (init [0; 1]%nat ex_fs0) st_ops) = [(0, OnDisk (3, 7, 0)%nat)]
+  /\ s_fs (final idn idn st_cfg (init [0; 1]%nat ex_fs0) st_ops) = ex_fs0 ++ [((3, 7, 0)%nat, 10%nat)]
+  /\ s_fs (final idn idn st_cfg (init [0; 1]%nat ex_fs0) (st_ops ++ [Finalize])) = ex_fs0
+  /\ s_buf (final idn idn (unlimited st_cfg) (init [0; 1]%nat ex_fs0) st_ops) = [(0, InRam 10%nat 48)].
+Proof. vm_compute. repeat split; reflexivity. Qed.
+
 Print Assumptions C10_transparent.
 Print Assumptions C10_reads_succeed.
 Print Assumptions C10_files_confined.
@@ -163,3 +197,5 @@ Print Assumptions C10_files_exact.
 Print Assumptions C10_clean_after_finalize.
 Print Assumptions C10_foreign_untouched.
 Print Assumptions C10_fs_restored.
+Print Assumptions C10_static_refusal_independent.
+Print Assumptions C10_static_single_entry.
